@@ -1,28 +1,38 @@
 (* C04 — Plain and quoted scalars yield exactly the text YAML assigns to them.
-   Specification side: Spec/FlowFold.v (escapes of 5.7, hexadecimal values, fold_lines, presentations).
-   Lemmas: Proofs/FlowScalarProofs.v.  Model: Model/SScalar.v (scan_flow_scalar, consume_nonws, flow_blanks,
-   resolve_escape, read_hex, scan_plain_scalar) over the string input str_ops; generated tables Gen/Escapes.v,
-   Gen/CharTraits.v (regenerated from parser/src/scanner.rs and char_traits.rs on every run).
+   Specification side: Spec/FlowFold.v (escapes of 5.7, hexadecimal values, fold_lines, presentations: a scalar is a
+   first line/segment and a list of (break layout, line/segment); plain_layout_wf / dq_layout_wf / sq_layout_wf say
+   which presentations the YAML 1.2.2 productions allow, plain_render / dq_render / sq_render how they are written,
+   plain_text / dq_text which text they denote).  It imports nothing from the model.
+   Lemmas: Proofs/FlowScalarProofs.v (tables, hexadecimal, the character loop), Proofs/PlainScalarProofs.v
+   (scan_plain_scalar), Proofs/QuotedFoldProofs.v (scan_flow_scalar over several lines).
+   Model: Model/SScalar.v (scan_flow_scalar, consume_nonws, flow_blanks, resolve_escape, read_hex, scan_plain_scalar,
+   plain_chunk, plain_blanks) over the string input str_ops; generated tables Gen/Escapes.v, Gen/CharTraits.v
+   (regenerated from parser/src/scanner.rs and char_traits.rs on every run).
 
-   THE COMPLETE STATEMENT is C04_full below (scanner level: the scanner state stands for the syntactic context;
-   C04_quoted_full and C04_plain_full are defined in Proofs/FlowScalarProofs.v over the presentations of
-   Spec/FlowFold.v).  It is NOT proved; what is proved of it:
-     full      T1  the generated escape table IS the table of section 5.7 (every character, both directions), the
-                   numeric escapes are x/2, u/4, U/8;
-     full      T2  hexadecimal digits and numbers: as_hex on every digit, read_hex on every digit list,
-                   resolve_escape on every named and every numeric escape (non-scalar values rejected);
-     partial   T3  the character loop for ALL words (C04_word_partial: no blank, no break, no escape;
-                   C04_word_with_escapes_partial: literals, named and numeric escapes in any order), and the
-                   whole scan_flow_scalar for ALL single-line escape-free texts with arbitrary interior, leading
-                   and trailing blanks, both quote styles, followed by the end of the line
-                   (C04_single_line_partial).  NOT covered by a theorem: multi-line scalars (folding: exercised
-                   only by the examples below and by the differential run), escapes inside the whole-scalar
-                   theorem, followers other than end of line, plain scalars;
-     refuted   the plain half of C04_full is false for the current code (C04_plain_full_refuted; known finding
-               plain-indented-document-marker in known_findings_c04.jsonl). *)
+   THE COMPLETE STATEMENT at scanner level is C04_full below (the scanner state stands for the syntactic context:
+   flow level, indentation, column).  It IS PROVED (C04_full_proved):
+     T1  the generated escape table IS the table of section 5.7 (every character, both directions), the numeric
+         escapes are x/2, u/4, U/8;
+     T2  hexadecimal digits and numbers: as_hex on every digit, read_hex on every digit list, resolve_escape on
+         every named and every numeric escape (non-scalar values rejected);
+     T3  the character loop for ALL words with and without escapes, the single-line quoted scalar (kept: they give
+         the exact final state and span, which T5 does not);
+     T4  C04_plain_full: for EVERY presentation of a plain scalar that the productions allow (first line, any number
+         of folded breaks with trailing padding, empty lines, continuation indentation with tabs after the required
+         spaces; block and flow context) followed by anything that ends a plain scalar, scan_plain_scalar returns the
+         scalar with exactly plain_text: single line -> the line, one break -> space, k+1 breaks -> k line feeds,
+         blanks around a break dropped, interior blanks kept, ':' '#' '-' and flow indicators where legal kept;
+     T5  C04_quoted_full: for EVERY presentation of a single- or double-quoted scalar (literals, '' , named and
+         numeric escapes, folded breaks, escaped breaks that keep the blanks before the backslash and join without a
+         space, empty lines, indentation) followed by anything that may follow it, scan_flow_scalar returns exactly
+         dq_text in the right style.
+   Breaks inside a scalar are written LF, CR or CR LF (bl_nl: one kind per break layout); the blank lines that may
+   follow a plain scalar likewise.
+   NOT covered by a theorem (differential run only): the buffered (iterator) input, the token-to-event path above the
+   scanner (C02/C07/C13 cover it), characters the productions exclude that saphyr nevertheless accepts. *)
 From Coq Require Import List NArith ZArith Bool.
 Import ListNotations.
-Require Import Parser SBase SPrim SDir SScalar SFetch Pipe FlowFold FlowScalarProofs.
+Require Import Parser SBase SPrim SDir SScalar SFetch Pipe FlowFold FlowScalarProofs PlainScalarProofs QuotedFoldProofs FoldPhysicalProofs.
 Open Scope N_scope.
 
 Definition C04_full : Prop := C04_quoted_full /\ C04_plain_full.
@@ -125,14 +135,80 @@ Theorem C04_single_line_partial : forall F single (s : sc strin) t rest,
 Proof. exact scan_flow_scalar_single_line. Qed.
 Print Assumptions C04_single_line_partial.
 
-(* ---- the complete statement is false for the current code (plain scalars) ------------------------------- *)
-Theorem C04_plain_full_refuted : ~ C04_plain_full.
-Proof. exact C04_plain_full_is_false. Qed.
-Print Assumptions C04_plain_full_refuted.
+(* ---- T4: plain scalars ------------------------------------------------------------------------------------ *)
+(* C04_plain_full (Proofs/PlainScalarProofs.v), spelled out: for every fuel F, required indentation n, first line,
+   continuation lines [more] with their break layouts, follower [rest] and scanner state s (over the string input)
+     - plain_layout_wf flow n first more: the lines are ns-plain lines of the context (flow = inside a flow
+       collection), the breaks are folded breaks whose empty lines / indentation satisfy l-empty(n) / s-flow-line-prefix(n),
+       no continuation line is a document marker in column 0;
+     - the input is plain_render first more ++ rest, and rest ends the scalar (plain_follower_ok: blanks, then the end
+       of input; a break and any number of lines of spaces, then nothing / in block context a line that is not
+       indented deeper than the block / a comment / a document marker in column 0 / in flow context , [ ] { } or
+       ": "; " #"; in flow context , [ ] { }; ": ");
+     - the block is less indented than n and than the scalar's first column (eff_indent: the indentation
+       unroll_non_block_indents leaves), the scalar does not start as a document marker in column 0;
+     - F covers the input (the pipeline gives 2 * length + 10);
+   scan_plain_scalar returns a Plain scalar token with text plain_text first more, starting at the current mark. *)
+Theorem C04_plain_full_proved : C04_plain_full.
+Proof. exact scan_plain_scalar_text. Qed.
+Print Assumptions C04_plain_full_proved.
 
-Theorem C04_full_refuted : ~ C04_full.
-Proof. exact (fun H => C04_plain_full_is_false (proj2 H)). Qed.
-Print Assumptions C04_full_refuted.
+(* ---- T5: quoted scalars ----------------------------------------------------------------------------------- *)
+(* C04_quoted_full (Proofs/QuotedFoldProofs.v): the same for single- and double-quoted scalars: presentation
+   (first segment, (break layout, segment) list) allowed by sq_layout_wf / dq_layout_wf, input = quote, rendering, quote,
+   rest; rest may follow a quoted scalar (quoted_follower_ok: blanks, then end of line / input, a comment, in flow
+   context , ] }, a colon - in block context only after a single-line scalar); scan_flow_scalar returns the scalar
+   of that style with text dq_text first more. *)
+Theorem C04_quoted_full_proved : C04_quoted_full.
+Proof. exact scan_flow_scalar_text. Qed.
+Print Assumptions C04_quoted_full_proved.
+
+Theorem C04_full_proved : C04_full.
+Proof. exact (conj scan_flow_scalar_text scan_plain_scalar_text). Qed.
+Print Assumptions C04_full_proved.
+
+(* the folding rules the texts are built with (Spec/FlowFold.v: break_text), stated: one break is a space, a break
+   followed by k+1 empty lines is k+1 line feeds, an escaped break followed by k empty lines is k line feeds (none:
+   the lines are joined) *)
+Theorem C04_fold_rules : forall k,
+  break_text (Folded 0) = [32] /\ break_text (Folded (S k)) = repeat 10 (S k) /\ break_text (Escaped k) = repeat 10 k
+  /\ break_text (Escaped 0) = [].
+Proof. exact (fun k => conj eq_refl (conj eq_refl (conj eq_refl eq_refl))). Qed.
+Print Assumptions C04_fold_rules.
+
+(* ---- the two formulations of folding agree (specification only) ------------------------------------------ *)
+(* The text a presentation denotes does not depend on how the source is cut into a presentation: it is the result of
+   the folding rules applied to the PHYSICAL lines of the source (cut at the line feeds; the first line loses its
+   trailing blanks, the last its leading blanks, inner lines both; inner lines of blanks only are empty lines;
+   a break followed by k empty lines gives a space if k = 0 and k line feeds otherwise). *)
+Theorem C04_plain_text_is_physical_folding : forall flow n first more,
+  plain_layout_wf flow n first more = true -> forallb (fun p => nl_is_lf (bl_nl (fst p))) more = true ->
+  fold_physical (split_lf [] (plain_render first more)) = plain_text first more.
+Proof. exact plain_text_is_physical_folding. Qed.
+Print Assumptions C04_plain_text_is_physical_folding.
+
+(* hence what scan_plain_scalar returns is the folding of the physical lines of the scalar's source *)
+Theorem C04_plain_scanned_is_physical_folding :
+  forall (F n : nat) (first : list N) (more : list (brk_layout * list N)) (rest : list N) (s : sc strin),
+    plain_layout_wf (0 <? sc_flow_level s) n first more = true ->
+    forallb (fun p => nl_is_lf (bl_nl (fst p))) more = true ->                    (* breaks written LF *)
+    si_chars (sc_in s) = plain_render first more ++ rest ->
+    plain_follower_ok (0 <? sc_flow_level s) (eff_indent s) rest = true ->
+    (eff_indent s < Z.of_nat n)%Z ->
+    (eff_indent s < Z.of_N (m_col (sc_mark s)))%Z ->
+    (sc_lws s = true -> m_col (sc_mark s) = 0 -> marker_at_col0 [] first = false) ->
+    (2 * length (si_chars (sc_in s)) + 10 <= F)%nat ->
+    exists sp s',
+      scan_plain_scalar str_ops F s
+      = Ok ((sp, TScalar Plain (fold_physical (split_lf [] (plain_render first more)))), s')
+      /\ sp_start sp = sc_mark s.
+Proof.
+  exact (fun F n first more rest s Hwf Hlf Hsrc Hfol Hn Hcol Hmk HF =>
+           eq_ind_r (fun t => exists sp s', scan_plain_scalar str_ops F s = Ok ((sp, TScalar Plain t), s') /\ sp_start sp = sc_mark s)
+                    (scan_plain_scalar_text F n first more rest s Hwf Hsrc Hfol Hn Hcol Hmk HF)
+                    (plain_text_is_physical_folding _ n first more Hwf Hlf)).
+Qed.
+Print Assumptions C04_plain_scanned_is_physical_folding.
 
 (* ---- examples (whole pipeline run_str, by computation) ------------------------------------------------- *)
 (* the specification functions are not trivial *)
@@ -167,11 +243,11 @@ Example C04_example_plain_multiline :
   scalars_of (run_str [107; 58; 32; 97; 32; 98; 10; 32; 32; 32; 99; 10; 10; 32; 32; 32; 100; 10; 122; 58; 32; 119; 10]) = ([(Plain, [107]); (Plain, [97; 32; 98; 32; 99; 10; 100]); (Plain, [122]); (Plain, [119])], true).
 Proof. vm_compute. reflexivity. Qed.
 
-(* an instance of C04_quoted_full (multi-line with escapes, not covered by a theorem): its hypotheses are satisfiable
-   and its conclusion is what the model computes *)
+(* an instance of C04_quoted_full (multi-line with escapes): its hypotheses are satisfiable and its conclusion is what
+   the model computes *)
 Example C04_quoted_full_instance :
-  let b := {| bl_escaped := false; bl_pad := [32]; bl_empties := [[]]; bl_indent := [32; 32; 9] |} in
-  let e := {| bl_escaped := true; bl_pad := []; bl_empties := []; bl_indent := [32] |} in
+  let b := {| bl_escaped := false; bl_pad := [32]; bl_empties := [[]]; bl_indent := [32; 32; 9]; bl_nl := NlLF |} in
+  let e := {| bl_escaped := true; bl_pad := []; bl_empties := []; bl_indent := [32]; bl_nl := NlLF |} in
   let first := [ILit 97; ILit 32; INamed 116 9] in
   let more := [(b, [ILit 98; ILit 32]); (e, [IHex 120 [52; 49] 65])] in
   dq_layout_wf 1 first more = true
@@ -183,11 +259,72 @@ Example C04_quoted_full_instance :
      end.
 Proof. vm_compute. repeat split. Qed.
 
-(* the two recorded findings, on the model (the implementation behaves the same: the check compares them) *)
-Example C04_known_finding_witnesses :
-  snd (scalars_of (run_str [91; 97; 32; 45; 93; 10])) = false
-  /\ scalars_of (run_str [97; 10; 32; 45; 45; 45; 10]) = ([(Plain, [97])], false)
-  /\ snd (scalars_of (run_str [107; 58; 10; 32; 32; 45; 45; 45; 32; 97; 10])) = false
-  /\ scalars_of (run_str [91; 97; 32; 45; 32; 93; 10]) = ([(Plain, [97; 32; 45])], true)
-  /\ scalars_of (run_str [45; 32; 45; 45; 45; 32; 97; 10]) = ([(Plain, [45; 45; 45; 32; 97])], true).
+(* the two repaired findings (263b504: a document marker ends a plain scalar only in column 0; 0b5f0e0: only the
+   FIRST character of a plain scalar may not be '-' before a flow indicator), on the model *)
+Example C04_fixed_finding_witnesses :
+  scalars_of (run_str [91; 97; 32; 45; 93; 10]) = ([(Plain, [97; 32; 45])], true)
+  /\ scalars_of (run_str [97; 10; 32; 45; 45; 45; 10]) = ([(Plain, [97; 32; 45; 45; 45])], true)
+  /\ scalars_of (run_str [107; 58; 10; 32; 32; 45; 45; 45; 32; 97; 10]) = ([(Plain, [107]); (Plain, [45; 45; 45; 32; 97])], true)
+  /\ snd (scalars_of (run_str [91; 45; 93; 10])) = false
+  /\ scalars_of (run_str [97; 10; 45; 45; 45; 10]) = ([(Plain, [97]); (Plain, [126])], true).
+Proof. vm_compute. repeat split. Qed.
+
+(* an instance of C04_plain_full: "a  b" + padding, an empty line, a tab in the continuation indentation, "c:d", an
+   indented "---", "x#e", at top level, followed by a comment; the hypotheses hold and the model computes plain_text *)
+Example C04_plain_full_instance :
+  let b := {| bl_escaped := false; bl_pad := [32; 9]; bl_empties := [[]]; bl_indent := [32; 32; 9]; bl_nl := NlLF |} in
+  let b2 := {| bl_escaped := false; bl_pad := []; bl_empties := []; bl_indent := [32]; bl_nl := NlLF |} in
+  let first := [97; 32; 32; 98] in
+  let more := [(b, [99; 58; 100]); (b2, [45; 45; 45]); (b2, [120; 35; 101])] in
+  let rest := [32; 35; 32; 120; 10] in
+  let s := init_sc {| si_chars := plain_render first more ++ rest; si_look := 0 |} in
+  plain_layout_wf false 1 first more = true
+  /\ plain_follower_ok false (eff_indent s) rest = true
+  /\ plain_text first more = [97; 32; 32; 98; 10; 99; 58; 100; 32; 45; 45; 45; 32; 120; 35; 101]
+  /\ match scan_plain_scalar str_ops 100 s with
+     | Ok ((_, TScalar Plain v), _) => v = plain_text first more
+     | _ => False
+     end.
+Proof. vm_compute. repeat split. Qed.
+
+(* the hypotheses of the two theorems are not vacuous in flow context either: [ 'it''s<LF> so' , a<LF>  - ] *)
+Example C04_flow_context_instances :
+  let b := {| bl_escaped := false; bl_pad := []; bl_empties := []; bl_indent := [32]; bl_nl := NlLF |} in
+  sq_layout_wf 0 [ILit 105; ILit 116; ILit 39; ILit 115] [(b, [ILit 115; ILit 111])] = true
+  /\ dq_text [ILit 105; ILit 116; ILit 39; ILit 115] [(b, [ILit 115; ILit 111])] = [105; 116; 39; 115; 32; 115; 111]
+  /\ quoted_follower_ok true true [32; 44] = true
+  /\ plain_layout_wf true 0 [97] [(b, [45])] = true
+  /\ plain_follower_ok true (-1) [32; 93] = true
+  /\ plain_text [97] [(b, [45])] = [97; 32; 45]
+  /\ scalars_of (run_str [91; 39; 105; 116; 39; 39; 115; 10; 32; 115; 111; 39; 32; 44; 32; 97; 10; 32; 45; 32; 93; 10])
+     = ([(SingleQuoted, [105; 116; 39; 115; 32; 115; 111]); (Plain, [97; 32; 45])], true).
+Proof. vm_compute. repeat split. Qed.
+
+(* what the well-formedness predicates exclude: a continuation line that is a document marker in column 0, a plain
+   line ending in ':' , a '#' after a blank, a segment that ends in a blank before a folded break *)
+Example C04_wf_is_not_trivial :
+  let b0 := {| bl_escaped := false; bl_pad := []; bl_empties := []; bl_indent := []; bl_nl := NlLF |} in
+  plain_layout_wf false 0 [97] [(b0, [45; 45; 45])] = false
+  /\ plain_layout_wf false 0 [97; 58] [] = false
+  /\ plain_layout_wf false 0 [97; 32; 35; 98] [] = false
+  /\ plain_layout_wf true 0 [97; 44] [] = false
+  /\ dq_layout_wf 0 [ILit 97; ILit 32] [(b0, [ILit 98])] = false
+  /\ dq_layout_wf 0 [ILit 97; INamed 32 32] [(b0, [ILit 98])] = true.
+Proof. vm_compute. repeat split. Qed.
+
+(* breaks written CR LF and CR: the same texts (instances of both theorems, hypotheses evaluated) *)
+Example C04_crlf_instances :
+  let b := {| bl_escaped := false; bl_pad := [32]; bl_empties := [[]; [32]]; bl_indent := [32; 32]; bl_nl := NlCRLF |} in
+  let c := {| bl_escaped := false; bl_pad := []; bl_empties := []; bl_indent := [32]; bl_nl := NlCR |} in
+  let e := {| bl_escaped := true; bl_pad := []; bl_empties := [[]]; bl_indent := []; bl_nl := NlCRLF |} in
+  let s1 := init_sc {| si_chars := plain_render [97] [(b, [98]); (c, [99])] ++ [10]; si_look := 0 |} in
+  let s2 := init_sc {| si_chars := 34 :: dq_render [ILit 97] [(b, [ILit 98]); (e, [ILit 99]); (c, [])] ++ [34; 10]; si_look := 0 |} in
+  plain_layout_wf false 1 [97] [(b, [98]); (c, [99])] = true
+  /\ plain_render [97] [(b, [98]); (c, [99])] = [97; 32; 13; 10; 13; 10; 32; 13; 10; 32; 32; 98; 13; 32; 99]
+  /\ plain_text [97] [(b, [98]); (c, [99])] = [97; 10; 10; 98; 32; 99]
+  /\ match scan_plain_scalar str_ops 100 s1 with Ok ((_, TScalar Plain v), _) => v = [97; 10; 10; 98; 32; 99] | _ => False end
+  /\ dq_layout_wf 0 [ILit 97] [(b, [ILit 98]); (e, [ILit 99]); (c, [])] = true
+  /\ dq_text [ILit 97] [(b, [ILit 98]); (e, [ILit 99]); (c, [])] = [97; 10; 10; 98; 10; 99; 32]
+  /\ match scan_flow_scalar str_ops 100 false s2 with
+     | Ok ((_, TScalar DoubleQuoted v), _) => v = [97; 10; 10; 98; 10; 99; 32] | _ => False end.
 Proof. vm_compute. repeat split. Qed.
